@@ -12,574 +12,551 @@ Definition show_fres (r : fres) : string :=
   end.
 Definition check (rs : list rune) : string := digest (show_fres (format_res rs)).
 Definition full (rs : list rune) : string := show_fres (format_res rs).
-Eval vm_compute in ("<<<M1330>>>" ++ check (runes_of_ascii "options {
-    // c1
-FixedStringPadFromLeft // c2
-= // c3
+Eval vm_compute in ("<<<M1369>>>" ++ check (runes_of_ascii "// top
+options // c0
+{ // c1
+FixedStringPadFromLeft = // c3a
+  // c3b
 true
     // c4
 ;
     // c5
 FixedStringPadChar // c6
-=
-    // c7
-'0' // c8
-; // c9
-} packet Leg { // c13a
-  // c13b
-InPrice0
-    // c14
-{ // c15
-repeat
-    // c16
-string // c17a
-  // c17b
-clOrdID // c18
-,
-    // c19
-int16 // c20a
-  // c20b
-msgKind ,
-    // c22
-zchar[
-    // c23
-5 // c24
-] // c25
-Px // c26a
-  // c26b
-, // c27a
-  // c27b
-} // c28a
-  // c28b
-,
-    // c29
-i16 // c30
-f1
-    // c31
-,
-    // c32
-repeat // c33a
-  // c33b
-f64 // c34a
-  // c34b
-Side2
-    // c35
-,
-    // c36
-string // c37
-Acct // c38
-,
-    // c39
-} packet // c41a
-  // c41b
-Cancel // c42
-{
-    // c43
-zchar[ // c44a
-  // c44b
-4 // c45
-] // c46a
-  // c46b
-clOrdID , // c48a
-  // c48b
-string
-    // c49
-seqNo // c50
-, // c51
-Leg
-    // c52
-,
-    // c53
-@leftPad // c54
-(
-    // c55
+= // c7
 '0'
-    // c56
-) // c57
-char[
-    // c58
-11 // c59
-] OrderId // c61
-, // c62
-} // c63a
-  // c63b
-packet
-    // c64
-Quote // c65a
-  // c65b
+    // c8
+;
+    // c9
+} // c10
+packet // c11
+Leg // c12
 {
-    // c66
-repeat // c67a
-  // c67b
-char[ // c68
-4 ]
-    // c70
-sym , f64 // c73a
-  // c73b
-OrderId
-    // c74
-, repeat Leg // c77
+    // c13
+repeat // c14
+InSym93
+    // c15
+{
+    // c16
+zchar[
+    // c17
+3 // c18
+]
+    // c19
+Acct
+    // c20
 ,
-    // c78
-repeat // c79a
-  // c79b
-i64 f1
-    // c81
-, int16 // c83
-Note // c84
-, // c85
-zchar[ // c86a
-  // c86b
-3 ] // c88
-count // c89a
-  // c89b
-, // c90
+    // c21
+string // c22
+Side2 // c23a
+  // c23b
+, // c24
+i32 Flags ,
+    // c27
+f32 // c28
+Note // c29a
+  // c29b
+, // c30a
+  // c30b
+i32
+    // c31
+msgKind // c32a
+  // c32b
+, } // c34
+,
+    // c35
+f64 // c36a
+  // c36b
+Note
+    // c37
+, // c38
+uint16
+    // c39
+Px // c40
+, // c41a
+  // c41b
 }
-    // c91
-root packet // c93
-Ack
-    // c94
-{ // c95
-@leftPad // c96
-(
-    // c97
-' '
-    // c98
-)
-    // c99
-char[ 10 // c101
-] // c102a
-  // c102b
-sym
-    // c103
+    // c42
+packet
+    // c43
+Quote // c44a
+  // c44b
+{ // c45a
+  // c45b
+zchar[ // c46
+2 ] // c48a
+  // c48b
+OrderId
+    // c49
+, } // c51
+packet Ack // c53
+{ // c54a
+  // c54b
+repeat // c55a
+  // c55b
+string // c56a
+  // c56b
+lastPx ,
+    // c58
+zchar[ // c59a
+  // c59b
+4 // c60
+]
+    // c61
+price , uint32 OrderId // c65a
+  // c65b
+, // c66
+Quote
+    // c67
 ,
-    // c104
-InPx60 // c105
-{ Cancel // c107
-, // c108a
-  // c108b
-repeat char[ 1
-    // c111
-] // c112a
-  // c112b
-f1 , // c114a
-  // c114b
-string // c115a
-  // c115b
-Tail , // c117
+    // c68
+int8 // c69a
+  // c69b
+Acct
+    // c70
+,
+    // c71
+} packet Fill
+    // c74
+{
+    // c75
 repeat
-    // c118
-InNote55 {
-    // c120
-int8 // c121
-count
+    // c76
+Leg // c77
+, // c78a
+  // c78b
+@rightPad // c79a
+  // c79b
+( '0' // c81a
+  // c81b
+) // c82
+char[
+    // c83
+11
+    // c84
+]
+    // c85
+Note , // c87a
+  // c87b
+f64
+    // c88
+Px ,
+    // c90
+@rightPad // c91a
+  // c91b
+( // c92
+'\x00'
+    // c93
+) // c94a
+  // c94b
+char[ // c95a
+  // c95b
+5 // c96
+] // c97a
+  // c97b
+Flags // c98
+, zchar[ // c100a
+  // c100b
+9 // c101a
+  // c101b
+] // c102
+x // c103
+, // c104a
+  // c104b
+string // c105a
+  // c105b
+msgKind // c106
+, } // c108
+root packet // c110a
+  // c110b
+Order // c111a
+  // c111b
+{ // c112
+Leg // c113
+, // c114a
+  // c114b
+repeat // c115
+Ack // c116
+, @rightPad ( // c119a
+  // c119b
+'\x00' // c120
+) char[
     // c122
-, // c123a
-  // c123b
-f64 // c124
-f1 // c125
-, repeat // c127a
-  // c127b
-Cancel // c128
-,
-    // c129
-} // c130
-, char[] // c132
-tag7 , // c134a
-  // c134b
-repeat // c135a
+3 ] // c124a
+  // c124b
+Side2
+    // c125
+, // c126
+repeat
+    // c127
+char[
+    // c128
+1 // c129a
+  // c129b
+] // c130
+seqNo
+    // c131
+, // c132
+u16 // c133
+clOrdID
+    // c134
+, // c135a
   // c135b
-string msgKind , // c138a
-  // c138b
-} // c139a
-  // c139b
-, // c140
-u8
-    // c141
-lastPx // c142
-, // c143
-match lastPx
-    // c145
-as // c146a
-  // c146b
-Body // c147
-{ // c148a
-  // c148b
-152 // c149
+match
+    // c136
+clOrdID // c137
+as Body
+    // c139
+{
+    // c140
+198 // c141a
+  // c141b
+: // c142
+Leg // c143a
+  // c143b
+, // c144a
+  // c144b
+23 :
+    // c146
+Quote // c147a
+  // c147b
+, // c148
+13 // c149a
+  // c149b
 : // c150a
   // c150b
-Quote , 173 :
+Ack // c151
+,
+    // c152
+159
+    // c153
+:
     // c154
-Cancel // c155
+Fill // c155a
+  // c155b
 ,
     // c156
-4
-    // c157
-: Leg , // c160a
-  // c160b
-} , // c162a
-  // c162b
-u16 Ref
+} , u32 venue // c160
+@calculatedFrom( // c161a
+  // c161b
+""CRC32"" // c162
+) // c163a
+  // c163b
+,
     // c164
-@calculatedFrom( // c165
-""CRC32"" ) // c167a
-  // c167b
-, } // c169
+} // c165a
+  // c165b
 ")).
-Eval vm_compute in ("<<<M313>>>" ++ check (runes_of_ascii "options { BodyLength = char[ 7] ;	}
+Eval vm_compute in ("<<<M271>>>" ++ check (runes_of_ascii "// packet A { u8 x, }
+packet string_ {
+@tag( 4294967296)
+@calculatedFrom( """ ++ [128512]%N ++ runes_of_ascii """ )@calculatedFrom( ""1"" )  leftPad @lengthOf( //	t
+int )  ``
+// `tick` ""quote"" 'q'
+//
+, repeat Packet{ zchar[
+0
+    // packet A { u8 x, }
+    ]options1 `line1
+line2` , },
+    @calculatedFrom( """"	) float32
+    u8x
+    ,
+float , i64_
+{ packetx {  i16	falsey, f32 repeatCount
+    `{ , }`,} ,
+    repeat char[
+0  ] i8i8, string	o @lengthOf( options1 ) , } , i64_
+@calculatedFrom(""a\""b"" )
+/// triple
+//x
+`a\`  , @rightPad ( )@lengthOf( packetx
+    )
+match matchKey as stringy{ ""a	b"":
+body,}
+    ,
+    // " ++ [27880; 37322]%N ++ runes_of_ascii "
+    @lengthOf(
+u128
+) @calculatedFrom(
+    ""`tick`"" ) @rightPad
+    () // @lengthOf(
+repeat falsey
+string_ `" ++ [28040; 24687; 31867; 22411]%N ++ runes_of_ascii "`
+    ,string As`it's`
+    ,
+@calculatedFrom( """ ++ [28040; 24687]%N ++ runes_of_ascii """ ) repeat rootA { float64
+body	,
+} , } options {zchar
+=
+    // " ++ [128512]%N ++ runes_of_ascii " emoji
+    true  ;  i8i8= 3; } packet	leftPad{	@calculatedFrom(
+    // c
+    """" ) //x
+@leftPad( ' ' )
+@calculatedFrom(
+""abc"" ) repeat MetaDataX{  char[] Pad , body
+@lengthOf( Foo )
+/// triple
+/// triple
+,uint64 i8i8 ,char[ 42 ]options1
+@calculatedFrom( ""x y""
+),}
+,
+} packet stringy
+    /// triple
+    {	@calculatedFrom( """ ++ [28040; 24687]%N ++ runes_of_ascii """ )BodyLength	len
+    ,@lengthOf(
+u
+    ) i8i8
+metadata
+, @calculatedFrom(
+""a\\""
+) //x
+packetx
+    ,
+    f64 i8i8	@lengthOf( Header
+    )
+    , metadata
+`
+`,@lengthOf( int ) repeat falsey	,
+repeat char[]
+trueish
+,
+    }
+")).
+Eval vm_compute in ("<<<M1716>>>" ++ check (runes_of_ascii "options {
+    BodyLength = char[7];
+}
+
 // c
 // @lengthOf(
-packet asx// " ++ [128512]%N ++ runes_of_ascii " emoji
-{ int16
-    x_y_z , @calculatedFrom(
-    """" ) @lengthOf(
-    /// triple
-    chars) //
-repeat repeatCount
-charz
-/// triple
-// " ++ [27880; 37322]%N ++ runes_of_ascii "
-, @leftPad ( ) i64_@calculatedFrom(
-""\" ++ [233]%N ++ runes_of_ascii """	) `// not a comment` , tag Z9_
-`two words` ,
-@lengthOf( asx
-)@calculatedFrom(
-""`tick`""
-    )match uint8x as
-matchKey
-    {0123456789
-// packet A { u8 x, }
-// a // b
-: u8x ,1 : zchar , } ,u128 @lengthOf( u128 // packet A { u8 x, }
-)// " ++ [128512]%N ++ runes_of_ascii " emoji
-, } MetaData	msg_type  {
-string
-BodyLength  `two words` , options1// " ++ [128512]%N ++ runes_of_ascii " emoji
-i64_ ,
-    }// " ++ [128512]%N ++ runes_of_ascii " emoji
-packet roots { u `` , @calculatedFrom( ""a	b"")match len as	msg_type{
-    // c
-    """ ++ [28040; 24687]%N ++ runes_of_ascii """
-:
-charz}, crc @calculatedFrom(
-// packet A { u8 x, }
-// packet A { u8 x, }
-""it's"" ) `a\`
-,@leftPad
-( '0' )@tag( 007	) zchar[// trailing space 
-3
-    // trailing space 
-    ] falsey ,  @calculatedFrom(// `tick` ""quote"" 'q'
-""\n""
-    )@calculatedFrom(""CRC32""// c
-)
-    // trailing space 
-    match
-    //x
-    Packet as // @lengthOf(
-stringy	{ 1:
-Pad
-, ""it's"" :f32a ,
-} , @leftPad (
-' '
-)
-    match // " ++ [27880; 37322]%N ++ runes_of_ascii "
-int as	a1 { [ 0123456789 ,255]
-    :
-    options1
-//x
-//x
-}
-    ,BodyLength
+packet asx {
+    int16 x_y_z,
+    @calculatedFrom("""")
+    @lengthOf(chars)
     //
-    @calculatedFrom( """ ++ [28040; 24687]%N ++ runes_of_ascii """ ),
-float32
-    zchar
-@calculatedFrom( ""// no comment""
-)
-,	@tag( 10 ) zchar[
-    // packet A { u8 x, }
-    1  ] rootA , }
-")).
-Eval vm_compute in ("<<<M1836>>>" ++ check (runes_of_ascii "root packet 
-roots
-{// `tick` ""quote"" 'q'
-}
-options { asx=
-""\n""
-    ;
-x_y_z=
-3	; rootA =
-""CRC32"" ;
-
-    float
-
-=
-	char
-    T= false ;
-    } packet  falsey{
-
-    body
-{	match
-    u8x	as	/// triple
-string_
-
-    {  [
-42,
-
-    7
-
-, 65535 ,  3 
-,
-	42
-
-    , 
-7
-	, ""1""
-    ,
-""packet"" ]  : 
-	    // `tick` ""quote"" 'q'
-    	i64_
-
-, 
-[""abc""] : Foo ,
-""a\\""	:
-
-    roots
-
-    ,4294967296
-    : stringy } 
-, //x
-  asx`{ , }` 	 // " ++ [128512]%N ++ runes_of_ascii " emoji
-    , i8
-charz
-    @lengthOf(	// trailing space 
-    x_y_z)// trailing space 
-  `a\` ,
-
-} 
-  // @lengthOf(
-    , @tag(65535
-)
-i64_
-	@lengthOf( tag
-) 
-`u8 x,` 
-
-// a // b
-
-  //	t
-	,
-Z9_
-@lengthOf(  int) ,
-    @calculatedFrom(
-
-""a\""b""
-    ) uint16
-stringy @lengthOf( 
-trueish) 
-, Logon {
-string Logon`say ""hi""`  ,
-
-    packetx i64_
-
-    , match	msg_type
-
-    as
-	float
-{ ""\n""  :
-i64_,
-    [  """ ++ [128512]%N ++ runes_of_ascii """ ] :
-	metadata ,  // `tick` ""quote"" 'q'
-
-[  
-  // trailing space 
-
-	// " ++ [128512]%N ++ runes_of_ascii " emoji
-  10
-
-,
-    ""1""
-]
-	:
-zchar , }
-	, //x
-	}
-
-    //x
-	, Packet  @calculatedFrom( 
-""CRC32""
-
-    )
-,
-    }
-
-")).
-Eval vm_compute in ("<<<M289>>>" ++ check (runes_of_ascii "options  {
-// " ++ [27880; 37322]%N ++ runes_of_ascii "
-//x
-float // packet A { u8 x, }
-=char[]
-    // @lengthOf(
-    ; Header = false
-//
-/// triple
-}
-    // `tick` ""quote"" 'q'
-    options {	x =char[] ; }	MetaData i64_{f64 As
-    /// triple
-    `
-` , repeatCount MetaDataX
-// `tick` ""quote"" 'q'
-// `tick` ""quote"" 'q'
-,
-repeatCount u128 //x
-,	metadata msg_type `tab	here`
-    ,
-    }
-packet  options1
-    {
-    repeat char[0123456789] T  , @tag(  65535
-)
-    //x
-    @calculatedFrom( ""CRC32""
-) @calculatedFrom( """ ++ [28040; 24687]%N ++ runes_of_ascii """ ) repeat string
-Logon
-    ,	@lengthOf( u128 )
-stringy  {string_ x ,
-} , @tag( // " ++ [27880; 37322]%N ++ runes_of_ascii "
-10) u64 tag @lengthOf(roots), Foo	@lengthOf(
-Foo
-)`// not a comment` ,
-string pack `a\` , match A
-    as charz {
-[ 3 ] : x ,} ,@tag(42 ) f64 msg_type @lengthOf(
-trueish )
-,match	pack /// triple
-as
-options1 { """ ++ [28040; 24687]%N ++ runes_of_ascii """ : // packet A { u8 x, }
-string_ ,	[ 65535, 7 ,
-""a\""b""
-    , 7]//	t
-: f32a 4294967296: o ,  }	,
-    char[] falsey ,
-} // " ++ [128512]%N ++ runes_of_ascii " emoji")).
-Eval vm_compute in ("<<<M1523>>>" ++ check (runes_of_ascii "packet o {
-    repeat pack stringy `two words`,
-    char[1] leftPad,
+    repeat repeatCount charz,
+    @leftPad()
+    i64_ @calculatedFrom(""\" ++ [233]%N ++ runes_of_ascii """) `// not a comment`,
+    tag Z9_ `two words`,
+    @lengthOf(asx)
+    @calculatedFrom(""`tick`"")
+    match uint8x as matchKey {
+        0123456789 : u8x,
+        1 : zchar,
+    },
+    u128 @lengthOf(u128),
 }
 
 MetaData msg_type {
-    zchar[1] Pad `" ++ [28040; 24687; 31867; 22411]%N ++ runes_of_ascii "`,
-    uint32 charz `a\`,
-    A u8x `// not a comment`,
-}
-
-packet options1 {
-    @calculatedFrom(""" ++ [233]%N ++ runes_of_ascii "t" ++ [233]%N ++ runes_of_ascii """)
-    @rightPad()
-    Pad @lengthOf(pack) ``,
-    match A as a1 {
-        255 : msg_type,
-    },
-    @lengthOf(tag)
-    @tag(00)
-    @rightPad(' ')
-    match Header as f32a {
-        """" : float,
-    },
-    char[] T @calculatedFrom(""packet""),
-    repeat asx msg_type `crlf
-    line`,
-    @calculatedFrom(""\" ++ [233]%N ++ runes_of_ascii """)
-    @tag(7)
-    int64 o `line1
-    line2`,
+    string BodyLength `two words`,
+    options1 i64_,
 }// " ++ [128512]%N ++ runes_of_ascii " emoji
 
-root packet crc {
-    int8 body @lengthOf(matchKey) `two words`,
-    @lengthOf(u8x)
-    zchar[0123456789] i8i8,
+packet roots {
+    u ``,
+    @calculatedFrom(""a	b"")
+    match len as msg_type {
+        // c
+        """ ++ [28040; 24687]%N ++ runes_of_ascii """ : charz,
+    },
+    crc @calculatedFrom(""it's"") `a\`,
+    @leftPad('0')
+    @tag(007)
+    zchar[3] falsey,
+    @calculatedFrom(""\n"")
+    @calculatedFrom(""CRC32"")
+    // trailing space 
+    match Packet as stringy {
+        1 : Pad,
+        ""it's"" : f32a,
+    },
+    @leftPad(' ')
+    match int as a1 {
+        [0123456789, 255] : options1,
+        //x
+        //x
+    },
+    BodyLength @calculatedFrom(""" ++ [28040; 24687]%N ++ runes_of_ascii """),
+    float32 zchar @calculatedFrom(""// no comment""),
+    @tag(10)
+    zchar[1] rootA,
+}")).
+Eval vm_compute in ("<<<M1536>>>" ++ check (runes_of_ascii "
+options
+	//x
+  	// @lengthOf(
+	  {Foo
+= ""// no comment""
+	    /// triple
+	//	t
+  	;} packet 
+float
+
+    {
+
+}
+packet
+	len 
+{ @lengthOf(
+    _x  )stringy {
+	metadata
+
+    @calculatedFrom(
+
+""a\\""
+
+    ) 
+,
+	}
+,
+//x
+	  //
+	}  packet
+
+asx { @tag( 0
+    )  repeat
+    float64
+	A  `say ""hi""` , 
+  //
+// trailing space 
+  i16  int`say ""hi""`,@calculatedFrom(
+
+    """ ++ [128512]%N ++ runes_of_ascii """
+) lengthOf Header `two words`  , f32a zchar , @rightPad
+	(
+    '0' ) repeat	string_ 
+// packet A { u8 x, }
+	chars
+
+``
+    , @tag(
+4294967296	)
+@calculatedFrom(
+
+""a	b"" )
+    repeat
+
+msg_type
+, @leftPad
+( 
+)
+
+    repeat f64
+_x
+,
+repeat As{  Logon @lengthOf(	calculatedFrom)
+`two words`  ,
+    repeat
+u64 o
+
+    `u8 x,` ,}
+	, @calculatedFrom(""packet"" )
+repeat// @lengthOf(
+    uint8
+    u	,}
+packet
+
+    uint8x 
+{@leftPad	('0' ) 
+
+    //	t
+//x
+  zchar[ 
+    // packet A { u8 x, }
+    // " ++ [27880; 37322]%N ++ runes_of_ascii "
+
+255]	metadata
+
+    `a\`
+	,	//
+
+	} // `tick` ""quote"" 'q'
+ 
+")).
+Eval vm_compute in ("<<<M1576>>>" ++ check (runes_of_ascii "root packet asx {
+    leftPad {
+        u128 @calculatedFrom(""1""),//x
+    },
+    lengthOf @calculatedFrom(""" ++ [128512]%N ++ runes_of_ascii """) `a\`,
+    i64 Packet @lengthOf(calculatedFrom),
+    @calculatedFrom(""" ++ [233]%N ++ runes_of_ascii "t" ++ [233]%N ++ runes_of_ascii """)
+    stringy a1 `doc`,
+    @rightPad()
+    // c
+    a1 `a\`,
+    char Header @lengthOf(x) `say ""hi""`,
+    uint8x Z9_ `tab	here`,
 }
 
-MetaData a1 {
-    falsey _x `
-    `,
-    char[] body `" ++ [28040; 24687; 31867; 22411]%N ++ runes_of_ascii "`,
-    zchar[42] trueish `
-    `,
-    float trueish,
-    metadata o `{ , }`,
+options {
+    calculatedFrom = 0
+}
+
+packet metadata {
+    @leftPad('\x00')
+    f32 pack,
+    @tag(65535)
+    u32 uint8x @lengthOf(repeatCount) ``,
+    MetaDataX {
+        repeat options1,
+        match matchKey as len {
+            """ ++ [128512]%N ++ runes_of_ascii """ : u8x,
+            1 : zchar,
+            /// triple
+            [""a\\"", ""x y""] : charz,
+            0 : x_y_z,
+            [4294967296] : asx,
+            [""a\""b"", ""\n"", ""\" ++ [233]%N ++ runes_of_ascii """, 10] : _x,
+        },
+        uint8 metadata @lengthOf(float),
+        zchar[255] i8i8,
+    },
+}
+
+root packet f32a {
 }")).
-Eval vm_compute in ("<<<M1124>>>" ++ check (runes_of_ascii "// top
-options
-    // c0
-{ // c1
-uint8x // c2a
-  // c2b
-= 007 // c4a
-  // c4b
-; lengthOf
-    // c6
-= i8 ; // c9a
-  // c9b
-} packet i64_
-    // c12
-{ // c13
-@calculatedFrom( // c14
-""1""
-    // c15
-) // c16
-@tag( // c17
-3 )
-    // c19
-@lengthOf(
-    // c20
-rootA ) // c22
-repeat // c23
-int8 // c24a
-  // c24b
-Packet // c25a
-  // c25b
-`u8 x,` // c26
-, // c27
-} // c28a
-  // c28b
-root
-    // c29
-packet // c30a
-  // c30b
-stringy
-    // c31
-{ // c32a
-  // c32b
-@rightPad ( ' ' // c35
-) // c36
-repeat // c37a
-  // c37b
-char[ // c38
-10 // c39
-] repeatCount // c41a
-  // c41b
-, // c42
-@tag( // c43a
-  // c43b
-255
-    // c44
-) // c45
-float64
-    // c46
-msg_type
-    // c47
-@calculatedFrom( ""packet""
-    // c49
-) // c50a
-  // c50b
-, // c51a
-  // c51b
-} // c52
-")).
+Eval vm_compute in ("<<<M1596>>>" ++ check (runes_of_ascii "MetaData x {
+    len crc,
+    float asx,
+    i32 uint8x `line1
+    line2`,
+    u16 tag `it's`,
+    As string_,
+}
+
+packet metadata {
+    @lengthOf(zchar)
+    // c
+    i64_ @calculatedFrom(""\" ++ [233]%N ++ runes_of_ascii """),//x
+    @leftPad('\x00')
+    zchar[10] zchar,
+    lengthOf string_,
+    int @lengthOf(pack),
+    zchar[00] Foo,
+    @lengthOf(packetx)
+    @leftPad('\x00')
+    @calculatedFrom(""x y"")
+    uint16 len @calculatedFrom("""") `two words`,
+    int8 metadata @lengthOf(Foo) `two words`,// @lengthOf(
+}
+
+options {
+}
+
+packet pack {
+    // `tick` ""quote"" 'q'
+    //
+    f64 o,
+    T BodyLength,
+    repeat uint8 chars `" ++ [233]%N ++ runes_of_ascii "`,
+    repeat Logon u,
+    @tag(0123456789)
+    char[] repeatCount @lengthOf(_x) `
+    `,//
+    @tag(7)
+    repeatCount @calculatedFrom(""packet"") `{ , }`,
+}")).
 Eval vm_compute in ("<<<M344>>>" ++ check (runes_of_ascii "options // a // b
 {	}
     packet i8i8 { @tag(
@@ -615,402 +592,383 @@ roots @calculatedFrom( ""`tick`"")
 {char[	65535	]chars
 ,}
 ")).
-Eval vm_compute in ("<<<M227>>>" ++ check (runes_of_ascii "packet	crc
-    { @lengthOf(Header )	repeat roots
-    // @lengthOf(
-    `a\` ,
-@lengthOf( tag ) match x as string_{ [ ""a\\"" , ""packet""
-] : Header""// no comment""
-    /// triple
-    :
-Logon , 7:
-falsey ,7  : metadata [ 7  , 00] :
-    // `tick` ""quote"" 'q'
-    repeatCount 3 : u ,
-},
-    //	t
-    @lengthOf( u128
-//
-// " ++ [27880; 37322]%N ++ runes_of_ascii "
-) @rightPad
+Eval vm_compute in ("<<<M1893>>>" ++ check (runes_of_ascii "root packet lengthOf {
+    // a // b
+    match i64_ as options1 {
+        ""// no comment"" : f32a,
+        65535 : falsey,
+    },
+    @tag(0)
+    char[] body @lengthOf(lengthOf),
+    u64 string_ `it's`,
+    @lengthOf(string_)
+    crc {
+        repeat zchar[3] u,
+        pack `a\`,
+        char[] crc ``,
+    },
+    int16 metadata `line1
+        line2`,
+}
+
+root packet leftPad {
+    repeat zchar[4294967296] MetaDataX,
+    @tag(10)
+    match tag as falsey {
+        7 : BodyLength,
+        0 : i64_,
+    },
+    repeat char[255] A,
+    char[7] trueish @calculatedFrom(""a\\"") `two words`,
+    i16 Logon,
+}")).
+Eval vm_compute in ("<<<M1729>>>" ++ check (runes_of_ascii "
+
+  packet	leftPad//
+  	{
+
+    @rightPad
 (
-'\x00' // c
-)
-char[] int ,int16 Packet @lengthOf(  string_
-    ) , trueish{ repeat
-crc {zchar
-calculatedFrom , } ,
-} ,
-// @lengthOf(
-//x
-@rightPad
-( ) repeat
-    _x pack // " ++ [27880; 37322]%N ++ runes_of_ascii "
-, @lengthOf(
-// c
-// trailing space 
-chars)repeat
-    string_ {repeat
-    uint8x`// not a comment`,}
-, }")).
-Eval vm_compute in ("<<<M1121>>>" ++ check (runes_of_ascii "// top
+)repeat 
+chars {
+crc  /// triple
+pack , 
+}
+
+,
+@calculatedFrom(  """ ++ [28040; 24687]%N ++ runes_of_ascii """
+)	@lengthOf(
+options1
+) 
+@tag(	65535  ) Foo ,	match  matchKey as	// " ++ [128512]%N ++ runes_of_ascii " emoji
+      tag {
+        // c
+[""{,}"" , """"
+,  ""`tick`"" ,3 ,	""it's""
+,
+	""" ++ [128512]%N ++ runes_of_ascii """ ,""it's""]
+	:  As 
+,
+[
+    /// triple
+      //	t
+
+""x y""
+] 
+	    //x
+    	:chars	,
+""" ++ [233]%N ++ runes_of_ascii "t" ++ [233]%N ++ runes_of_ascii """  :uint8x
+
+    ,4294967296	:	packetx ""// no comment""
+: calculatedFrom,	}  ,
+@calculatedFrom(
+
+""// no comment"" 	 // @lengthOf(
+    	)  char[ // trailing space 
+	  007
+
+    ]	f32a
+
+    ,}  // a // b")).
+Eval vm_compute in ("<<<M1119>>>" ++ check (runes_of_ascii "// top
 root // c0
 packet // c1
-_x
-    // c2
-{ match
-    // c4
+_x // c2
+{ // c3
+match // c4
 Foo // c5
-as // c6a
-  // c6b
-Z9_ {
-    // c8
-""a	b"" // c9a
-  // c9b
+as // c6
+Z9_ // c7
+{ // c8
+""a	b"" // c9
 : // c10
 Pad // c11
-,
-    // c12
-} , // c14
-repeat // c15a
-  // c15b
-x `line1
-line2`
-    // c17
+, // c12
+} // c13
+, // c14
+repeat // c15
+x // c16
+`line1
+line2` // c17
 , // c18
-@rightPad // c19a
-  // c19b
-(
-    // c20
+@rightPad // c19
+( // c20
 ' ' // c21
 ) // c22
-@calculatedFrom( ""a\\""
-    // c24
-) // c25a
-  // c25b
-metadata MetaDataX
-    // c27
-, @tag(
-    // c29
-0 ) // c31
-Logon int
-    // c33
-``
-    // c34
-,
-    // c35
+@calculatedFrom( // c23
+""a\\"" // c24
+) // c25
+metadata // c26
+MetaDataX // c27
+, // c28
+@tag( // c29
+0 // c30
+) // c31
+Logon // c32
+int // c33
+`` // c34
+, // c35
 } // c36
 options // c37
-{
-    // c38
+{ // c38
 T // c39
-= // c40a
-  // c40b
-'\x00' } // c42a
-  // c42b
+= // c40
+'\x00' // c41
+} // c42
 ")).
-Eval vm_compute in ("<<<M1677>>>" ++ check (runes_of_ascii "
-packet
-    leftPad // trailing space 
-      {
+Eval vm_compute in ("<<<M1491>>>" ++ check (runes_of_ascii "options {
+    LittleEndian = true;
+    StringPrefixLenType = u64;
+    ArrayPrefixLenType = u16;
+    FixedStringPadFromLeft = false;
+    FixedStringPadChar = ' ';
+}
 
-@tag(	10
+packet Logon {
+    zchar[5] Side2,
+}
 
-    )  @tag(
-
-007 )@lengthOf(
-a1
-) 
-    // a // b
-//
-  repeat
-metadata
-    ,
-
-} 	 // " ++ [128512]%N ++ runes_of_ascii " emoji
-options
-	// @lengthOf(
-  	{lengthOf =""" ++ [128512]%N ++ runes_of_ascii """
-;
-    }	packet  T
-	// " ++ [27880; 37322]%N ++ runes_of_ascii "
-	{
-A
-
-{ 
-      //
-    	// `tick` ""quote"" 'q'
-
-	tag
-@calculatedFrom(	""abc""
-)
-
-,  } 
-,@lengthOf(  matchKey
-    )
-    string
-
-    Header	@lengthOf(
-
-    metadata)
-
-    ,
-
-leftPad
-    // trailing space 
-  @calculatedFrom(  ""a\""b"" ) `crlf
-line` ,
-
-    }
-")).
-Eval vm_compute in ("<<<M180>>>" ++ check (runes_of_ascii "options
-    // @lengthOf(
-    {}
-packet charz { @rightPad (  ' ') @calculatedFrom(
-    ""a\\"" ) repeat int	crc `two words` , string stringy
-    @calculatedFrom( ""a	b""
-    // " ++ [128512]%N ++ runes_of_ascii " emoji
-    )`// not a comment`	,//
-char i8i8,
-}  MetaData	crc {// `tick` ""quote"" 'q'
-crc i64_`{ , }`
-,
-    // `tick` ""quote"" 'q'
-    i32// c
-u128 ,// packet A { u8 x, }
-BodyLength Header
-    ,char[ 0123456789]
-/// triple
-//
-Packet `u8 x,`
-, uint8 repeatCount , //	t
+root packet Logout {
+    repeat i64 Tail,
+    Logon,
+    repeat i16 OrderId,
+    char[] venue,
+    uint64 x,
+    repeat i16 count,
+    u8 Flags,
+    match Flags as Body {
+        25 : Logon,
+    },
+    u16 Qty @calculatedFrom(""CR\
+    C32""),
 }")).
-Eval vm_compute in ("<<<M1328>>>" ++ check (runes_of_ascii "
-options
-    {LittleEndian 
-=
+Eval vm_compute in ("<<<M306>>>" ++ check (runes_of_ascii "packet rootA { @tag(0123456789 ) options1 {int32 uint8x
+    `u8 x,`
+    , u8x
+//x
+// packet A { u8 x, }
+{
+    match Header as
+    metadata {[	10 ]
+: pack } ,
+    } , f64 // `tick` ""quote"" 'q'
+chars , }
+, @lengthOf( body ) u64
+// @lengthOf(
+//
+Z9_ , }
+MetaData repeatCount
+    {zchar[10 ] string_ , f64 A
+, u32 BodyLength , zchar[ 00 ] uint8x ,
+    trueish
+leftPad,char[ 65535  ] rootA	, }
+//	t
+")).
+Eval vm_compute in ("<<<M1378>>>" ++ check (runes_of_ascii "
+options { LittleEndian
+
+    =
 	true
 
-    ;
-    StringPrefixLenType
-
-    =
-
-u16
-    ;FixedStringPadChar
-    =
-    ' '; }packet
-Logon
-
-{
-@leftPad
-    (  '0'
-
-)  char[ 10  ] tag7
-, }root
-
-    packet
-
-    Ack
-{
-    int32 Px 
-,
-uint16
-
-    count
-	,
-	string
-    Qty ,string OrderId , 
-string
-
-    Flags	,  u8 x
-
-,  match x 
-as  Body
-
-{[ 58
-    ,
-169] 
-: Logon
-
-,
-}	,
-
-    }
-")).
-Eval vm_compute in ("<<<M1620>>>" ++ check (runes_of_ascii "MetaData
-
-T {
-	uint8
-float ,repeatCount 
+    ; }	packet
+	Logon {u8 
 x
-,
-char[  10
-] asx  /// triple
-    ,
+    , }	packet	Logout
 
-    char[
-00
-	] metadata
+    {  u16
 
-`" ++ [233]%N ++ runes_of_ascii "`
-    ,
+reason ,}
+root
+packet  Frame
 
-u8x asx	//	t
-  ,} MetaData
-trueish
-
-    { 
-charz
-string_	`crlf
-line`,
-zchar[  42 ] 
-_x
-	    //
-    // `tick` ""quote"" 'q'
-  , }
-	packet
-	o 
-{
-
-char[]	u8x@calculatedFrom(""abc""
-
-)
-
-, }
-options { x
-
-=	255;
-
-u  // " ++ [27880; 37322]%N ++ runes_of_ascii "
-= '0'
-    }
-")).
-Eval vm_compute in ("<<<M12>>>" ++ check (runes_of_ascii "options {falsey =int64; u8x = uint32	uint8x =// " ++ [128512]%N ++ runes_of_ascii " emoji
-zchar[ 1
-]
-// @lengthOf(
-/// triple
-; leftPad =
-    ""a	b"";
-    calculatedFrom
-=
-    false ;	}
-MetaData Packet
-{  zchar[
-7]  As ,} root packet	pack {
-@leftPad ( )	@tag(// trailing space 
-7 ) zchar[ 3 ] u	@lengthOf(
-// @lengthOf(
-// trailing space 
-x ),
-}
-")).
-Eval vm_compute in ("<<<M1559>>>" ++ check (runes_of_ascii "
-root 	 // trailing space 
-packet
-	int {
-    f32a
-	@calculatedFrom( ""packet""
-
-)
-
-`
-`
-
-    ,	}
-
-    options
-{
-	rootA
-// @lengthOf(
-	= ""\" ++ [233]%N ++ runes_of_ascii """ ;
-    }packet i8i8
     {
-	// trailing space 
-uint8
-uint8x @lengthOf(
-    string_	)//	t
-    ,
-i32  tag //	t
-@lengthOf(
-	Logon 
-),
-    }")).
-Eval vm_compute in ("<<<M254>>>" ++ check (runes_of_ascii "packet  zchar
-{ zchar[ 42
-//
-//
-]uint8x ,
-    match
-    A as
-As{
-    0: int
-    ,
-}
-, @tag(7 ) @calculatedFrom(
-""packet"" ) match
-i64_
-as metadata //	t
-{
-    ""CRC32"" :
-A , }
+u8 Kind ,
+
+    u8
+	Kind2 ,
+
+match
+Kind
+	as Body	{
+
+    1	:  Logon 
+, [ 2 ,
+
+3 
 ,
-    // c
-    }	root
-packet
-uint8x {
-    char[ 00 ]	crc
-,// " ++ [128512]%N ++ runes_of_ascii " emoji
-} 	 ")).
-Eval vm_compute in ("<<<M358>>>" ++ check (runes_of_ascii "
-packet matchKey	{ // @lengthOf(
-@lengthOf(
-a1 ) string_
-T`" ++ [28040; 24687; 31867; 22411]%N ++ runes_of_ascii "`, //
-} packet body {f32 _x  , packetx @lengthOf(
-options1 ) // packet A { u8 x, }
-`` , @leftPad ( ' ') i16 crc ,@calculatedFrom(
-""" ++ [128512]%N ++ runes_of_ascii """
-)	Pad
-, } //")).
-Eval vm_compute in ("<<<M265>>>" ++ check (runes_of_ascii "MetaData
-    zchar
-{
-uint8 _x
-// `tick` ""quote"" 'q'
-//
-`doc` ,
-    float64 metadata`doc` // " ++ [128512]%N ++ runes_of_ascii " emoji
-, zchar[ 42
+	4
+
     ]
+    :
+
+Logout	,
+100
+
+:  Logon 
+,}  ,
+    match
+    Kind2
+
+    as	Trailer
+
+    {0
+
+    :
+
+Logout
+, } 
+,	}")).
+Eval vm_compute in ("<<<M1191>>>" ++ check (runes_of_ascii "// top
+MetaData // c0
+uint8x // c1
+{ // c2
+char[] // c3
+f32a // c4
+`// not a comment` // c5
+, // c6
+float32 // c7
+roots // c8
+, // c9
+char[ // c10
+7 // c11
+] // c12
+u8x // c13
+, // c14
+zchar[ // c15
+10 // c16
+] // c17
+f32a // c18
+, // c19
+u64 // c20
+pack // c21
+, // c22
+u16 // c23
+pack // c24
+, // c25
+} // c26
+")).
+Eval vm_compute in ("<<<M287>>>" ++ check (runes_of_ascii "root // trailing space 
+packet int {
+    f32a @calculatedFrom(""packet"" )
+    `
+`
+    , } options
+{
+    rootA
+    // @lengthOf(
+    =
+""\" ++ [233]%N ++ runes_of_ascii """; }
+    packet
+i8i8 {
+    // trailing space 
+    uint8
+    uint8x
+    @lengthOf( string_ ) //	t
+, i32 tag //	t
+@lengthOf(
+Logon )  , }")).
+Eval vm_compute in ("<<<M242>>>" ++ check (runes_of_ascii "packet len{} options	{ Z9_ =  4294967296;
+_x =// a // b
+0
+    f32a = zchar[42	] ; } root packet
+    // @lengthOf(
+    BodyLength // trailing space 
+{ }options {
+string_ =u32	;	charz =
+/// triple
 // packet A { u8 x, }
-// c
-x_y_z , zchar[ 3 ]Logon `{ , }`
-, }
+string
+; } packet len { }")).
+Eval vm_compute in ("<<<M1612>>>" ++ check (runes_of_ascii "
+packet  Logon	{
+    string
+	user  ,}
+root 
+packet Frame{ u8 K,
+
+    match  K  as Body
+
+    {
+1:
+    Logon , 2
+    :Logout ,  } 
+,
+    Tail
+,}packet  Logout
+{
+	u16 reason
+,
+	}
+
+packet 
+Tail
+
+    {u32
+
+crc 
+,}
+")).
+Eval vm_compute in ("<<<M1752>>>" ++ check (runes_of_ascii "root packet Frame {
+    u8 K,
+    Logon first,
+    match K as Body {
+        1 : Logon,
+        2 : Logout,
+    },
+}
+
+packet Logon {
+    string user,
+}
+
+packet Logout {
+    u16 reason,
+}")).
+Eval vm_compute in ("<<<M1746>>>" ++ check (runes_of_ascii "packet crc {
+    @leftPad()
+    repeat charz float,
+}
+
+root packet options1 {
+    @tag(65535)
+    packetx {
+        u128,
+        f32 a1,
+    },
+}
+// trailing space ")).
+Eval vm_compute in ("<<<M1788>>>" ++ check (runes_of_ascii "packet
+	A  { 
+match 
+k
+	as
+    n
+    {	[  1
+,
+	""bb"" , 007
+,
+""d""
+
+    ,
+5,  ""f""
+    ,
+	7,
+    ""h"" ,
+    9,
+
+""j""
+, 11
+]
+
+    : B
+,  2	:
+    C
+}
+,
+    }
 
 ")).
-Eval vm_compute in ("<<<M1639>>>" ++ check (runes_of_ascii "packet A {
-    Inner {
-        match k as n {
-            [
-                1, 22, 007, 4, 5,
-                66, 7, 8, 9, 10
-            ] : B,
-        },
-    },
-}")).
-Eval vm_compute in ("<<<M1907>>>" ++ check (runes_of_ascii "packet A {
-    match k as n {
-        [
-            1, 22, 4, 5, 7,
-            8, 10, 11, ""c c"", ""f"",
-            ""i""
-        ] : B,
-        2 : C,
-    },
-}")).
-Eval vm_compute in ("<<<M1479>>>" ++ check (runes_of_ascii "packet calculatedFrom {
+Eval vm_compute in ("<<<M1899>>>" ++ check (runes_of_ascii "packet calculatedFrom {
     uint8x {
         body `line1
         line2`,
@@ -1029,7 +987,7 @@ a1
     { } options {packetx
     = '\x00'	; u128= ""a	b""  ; }
 ")).
-Eval vm_compute in ("<<<M497>>>" ++ check (runes_of_ascii "packet uint8x
+Eval vm_compute in ("<<<M498>>>" ++ check (runes_of_ascii "packet uint8x
 { match pack
     as msg_type	{
     0123456789 :	float
@@ -1038,187 +996,148 @@ Eval vm_compute in ("<<<M497>>>" ++ check (runes_of_ascii "packet uint8x
 } packet //	t
 a1
     { } options {packetx
-    '\x00' =	; u128= ""a	b""  ; }
+    ; '\x00'	; u128= ""a	b""  ; }
 ")).
-Eval vm_compute in ("<<<M1900>>>" ++ check (runes_of_ascii "packet A
-	{match 
-k	as n
-{ 
-[
-
-1  ,
-""bb""  ,
-    007  ,""d"" ,5
-    ,
-
-""f"" , 7 
-, ""h""
-
-,
-    9
-,
-    ""j"" 
-,
-    11
-
-    ] :B
-
-,	2
-:
-C	}
-
-    ,
-
+Eval vm_compute in ("<<<M415>>>" ++ check (runes_of_ascii "packet uint8x
+{ match pack
+     msg_type	{
+    0123456789 :	float
 }
-
+,
+} packet //	t
+a1
+    { } options {packetx
+    = '\x00'	; u128= ""a	b""  ; }
 ")).
-Eval vm_compute in ("<<<M670>>>" ++ check (runes_of_ascii "// @lengthOf(
-packet i8i8 { u128 o , }
+Eval vm_compute in ("<<<M674>>>" ++ check (runes_of_ascii "// @lengthOf(
+packet i8i8 { { u128 o , }
 options { MetaDataX = true;
     BodyLength =""packet"" x_y_z= 007
 crc //x
 = ""abc"" ;
-    msg_type = =
+    msg_type =
 i16 }")).
-Eval vm_compute in ("<<<M662>>>" ++ check (runes_of_ascii "// @lengthOf(
-packet i8i8 { u128 o , }
-{ options MetaDataX = true;
+Eval vm_compute in ("<<<M679>>>" ++ check (runes_of_ascii "// @lengthOf(
+packet { i8i8 u128 o , }
+options { MetaDataX = true;
     BodyLength =""packet"" x_y_z= 007
 crc //x
 = ""abc"" ;
     msg_type =
 i16 }")).
-Eval vm_compute in ("<<<M706>>>" ++ check (runes_of_ascii "// @lengthOf(
-packet i8i8 { u128 o , }
-options { MetaDataX = ;
+Eval vm_compute in ("<<<M669>>>" ++ check (runes_of_ascii "// @lengthOf(
+packet i8i8 {  o , }
+options { MetaDataX = true;
     BodyLength =""packet"" x_y_z= 007
 crc //x
 = ""abc"" ;
     msg_type =
 i16 }")).
-Eval vm_compute in ("<<<M1796>>>" ++ check (runes_of_ascii "options {
-    LittleEndian = true;
+Eval vm_compute in ("<<<M16>>>" ++ check (runes_of_ascii "options { }MetaData u8x { uint8x	body`crlf
+line`
+    //	t
+    , calculatedFrom body ,
+}
+    options  {
+} root packet options1
+{  }")).
+Eval vm_compute in ("<<<M1756>>>" ++ check (runes_of_ascii "MetaData leftPad {
+    chars MetaDataX,
 }
 
-packet B {
-    u8 a,
-    string s,
+packet repeatCount {
+    char[255] uint8x `" ++ [233]%N ++ runes_of_ascii "`,
 }
 
-root packet P {
-    u16 L @lengthOf(B),
-    B,
-    u8 t,
-}")).
-Eval vm_compute in ("<<<M937>>>" ++ check (runes_of_ascii "packet A {
-    u16 len @lengthOf(body) `a
-    b
-  c`,
-    u32 crc @calculatedFrom(""CRC32"") `a
-    b
-  c`,
-    string body,
-}")).
-Eval vm_compute in ("<<<M1149>>>" ++ check (runes_of_ascii "MetaData leftPad { chars // c
-MetaDataX , } packet repeatCount { char[ 255 ] uint8x `" ++ [233]%N ++ runes_of_ascii "` , } MetaData pack { As Foo , }")).
-Eval vm_compute in ("<<<M1181>>>" ++ check (runes_of_ascii "MetaData leftPad { chars MetaDataX , } packet repeatCount { char[ 255 ] uint8x `" ++ [233]%N ++ runes_of_ascii "` , } MetaData pack { // c
-As Foo , }")).
-Eval vm_compute in ("<<<M1417>>>" ++ check (runes_of_ascii "
-packet
-    A {
-match
-k  as  n
-
-{ [ 
-1 ,
-22,
-	""c c""  ,4 ,	5
-    , ""f""	,
-7
-]
-
-    :
-	B  2  :
-
-    C }
-,	}
+MetaData pack {
+    As Foo,
+}// c")).
+Eval vm_compute in ("<<<M1189>>>" ++ check (runes_of_ascii "MetaData leftPad { chars MetaDataX , } packet repeatCount { char[ 255 ] uint8x `" ++ [233]%N ++ runes_of_ascii "` , } MetaData pack { As Foo , } // c
 ")).
-Eval vm_compute in ("<<<M949>>>" ++ check (runes_of_ascii "packet A {
-    u16 len @lengthOf(body) `x
-`,
-    u32 crc @calculatedFrom(""CRC32"") `x
-`,
+Eval vm_compute in ("<<<M1169>>>" ++ check (runes_of_ascii "MetaData leftPad { chars MetaDataX , } packet repeatCount { char[ 255 ] uint8x // c
+`" ++ [233]%N ++ runes_of_ascii "` , } MetaData pack { As Foo , }")).
+Eval vm_compute in ("<<<M499>>>" ++ check (runes_of_ascii "packet uint8x
+{ match pack
+    as msg_type	{
+    0123456789 :	float
+}
+,
+} packet //	t
+a1
+    { } options {packetx")).
+Eval vm_compute in ("<<<M919>>>" ++ check (runes_of_ascii "packet A {
+    u16 len @lengthOf(body) `a
+b`,
+    u32 crc @calculatedFrom(""CRC32"") `a
+b`,
     string body,
 }")).
-Eval vm_compute in ("<<<M913>>>" ++ check (runes_of_ascii "packet A {
+Eval vm_compute in ("<<<M926>>>" ++ check (runes_of_ascii "packet A {
+    Inner {
+        u8 x `a
+b`,
+        Deep {
+            u8 y `a
+b`,
+        },
+    },
+}")).
+Eval vm_compute in ("<<<M899>>>" ++ check (runes_of_ascii "packet A {
   match k as n {
-    [1, 22, ""c c"", 4, 5, ""f"", 7, 8, ""i"", 10, 11, ""l""] : B
+    [1, 22, ""c c"", 4, 5, ""f"", 7, 8, ""i"", 10, 11] : B,
     2 : C
   },
 }")).
-Eval vm_compute in ("<<<M656>>>" ++ check (runes_of_ascii "// @lengthOf(
-packet i8i8 { u128 o , }
-options { MetaDataX = true;
-    BodyLength =""packet"" x_y_z")).
-Eval vm_compute in ("<<<M565>>>" ++ check (runes_of_ascii "
+Eval vm_compute in ("<<<M605>>>" ++ check (runes_of_ascii "
 packet
-    asx true match u128 as lengthOf
+    asx {match u128 as lengthOf
+{
+//	t
+// `tick` ""quote"" 'q'
+255 : repeat ,
+    } ,	}")).
+Eval vm_compute in ("<<<M588>>>" ++ check (runes_of_ascii "
+packet
+    asx {match u128 as lengthOf
+{ {
+//	t
+// `tick` ""quote"" 'q'
+255 : x ,
+    } ,	}")).
+Eval vm_compute in ("<<<M564>>>" ++ check (runes_of_ascii "
+packet
+    asx match{ u128 as lengthOf
 {
 //	t
 // `tick` ""quote"" 'q'
 255 : x ,
     } ,	}")).
-Eval vm_compute in ("<<<M629>>>" ++ check (runes_of_ascii "
+Eval vm_compute in ("<<<M595>>>" ++ check (runes_of_ascii "
 packet
     asx {match u128 as lengthOf
 {
 //	t
 // `tick` ""quote"" 'q'
-255 : x ,
-    } ~ ,	}")).
-Eval vm_compute in ("<<<M609>>>" ++ check (runes_of_ascii "
-packet
-    asx {match u128 as lengthOf
-{
-//	t
-// `tick` ""quote"" 'q'
-255 : x }
-    , ,	}")).
-Eval vm_compute in ("<<<M1086>>>" ++ check (runes_of_ascii "packet A { match k as n // a
- { // b
- 1 // c
- : // d
- B // e
- , // f
- } // g
- , // h
- }")).
-Eval vm_compute in ("<<<M1552>>>" ++ check (runes_of_ascii "packet A {
-    B b `x
-        `,
-    B `x
-        `,
-    repeat B bs `x
-        `,
+: : x ,
+    } ,	}")).
+Eval vm_compute in ("<<<M843>>>" ++ check (runes_of_ascii "packet A {
+  match k as n {
+    [1, ""bb"", 007, ""d"", 5, ""f"", 7] : B,
+    2 : C
+  },
 }")).
-Eval vm_compute in ("<<<M1273>>>" ++ check (runes_of_ascii "options {
-    FixedStringPadFromLeft = true;
-}
-root packet P {
-    char[4] z,
-}
-")).
-Eval vm_compute in ("<<<M1397>>>" ++ check (runes_of_ascii "packet A {
+Eval vm_compute in ("<<<M1629>>>" ++ check (runes_of_ascii "packet A {
     match k as n {
-        [1, ""bb""] : B,
+        [1, ""bb"", 007] : B,
         2 : C,
     },
 }")).
-Eval vm_compute in ("<<<M789>>>" ++ check (runes_of_ascii "packet A {
-  match k as n {
-    [""a"", ""bb"", ""c c""] : B,
-    2 : C
-  },
+Eval vm_compute in ("<<<M903>>>" ++ check (runes_of_ascii "packet A { Inner { match k as n { [1,22,007,4,5,66,7,8,9,10,11] : B, }, }, }")).
+Eval vm_compute in ("<<<M1099>>>" ++ check (runes_of_ascii "packet A {
+    match k as n {
+        1 : B // c
+        , // d
+    },
 }")).
 Eval vm_compute in ("<<<M801>>>" ++ check (runes_of_ascii "packet A {
   match k as n {
@@ -1226,60 +1145,75 @@ Eval vm_compute in ("<<<M801>>>" ++ check (runes_of_ascii "packet A {
     2 : C
   },
 }")).
-Eval vm_compute in ("<<<M155>>>" ++ check (runes_of_ascii "options
-{calculatedFrom
-= ""abc""
-;float=i16
-} // trailing space ")).
-Eval vm_compute in ("<<<M1697>>>" ++ check (runes_of_ascii "packet A {
-    @tag(1)
-    u8 x,// b
-    @tag(2)
-    u8 y,
+Eval vm_compute in ("<<<M784>>>" ++ check (runes_of_ascii "packet A {
+  match k as n {
+    [""a"", 22] : B,
+    2 : C
+  },
 }")).
-Eval vm_compute in ("<<<M1657>>>" ++ check (runes_of_ascii "packet body {
+Eval vm_compute in ("<<<M1522>>>" ++ check (runes_of_ascii "packet body {
+    // c
     i32 f32a `{ , }`,
-}// c
+}
 
 options {
 }")).
-Eval vm_compute in ("<<<M1215>>>" ++ check (runes_of_ascii "packet body { i32 f32a `{ , }` , } options // c
-{ }")).
-Eval vm_compute in ("<<<M284>>>" ++ check (runes_of_ascii "
-options{ trueish=
-'0' //	t
-;a1 = u64
-; }")).
-Eval vm_compute in ("<<<M1434>>>" ++ check (runes_of_ascii "packet MetaDataX {
-    i16 u128 `" ++ [233]%N ++ runes_of_ascii "`,//x
-}")).
-Eval vm_compute in ("<<<M1871>>>" ++ check (runes_of_ascii "packet A {
-    u8 x `a
-        b`,
-}")).
-Eval vm_compute in ("<<<M1721>>>" ++ check (runes_of_ascii "packet A {
-    u8 x `d" ++ [8239]%N ++ runes_of_ascii "`,// c" ++ [8239]%N ++ runes_of_ascii "
-}")).
-Eval vm_compute in ("<<<M759>>>" ++ check (runes_of_ascii "= u64 ; u32 MetaData packet {")).
-Eval vm_compute in ("<<<M1906>>>" ++ check (runes_of_ascii "
-MetaData  tag
+Eval vm_compute in ("<<<M1245>>>" ++ check (runes_of_ascii "root
+    packet	P
+{repeat
 
+char 
+cs  ,u8
+
+    x ,} ")).
+Eval vm_compute in ("<<<M1214>>>" ++ check (runes_of_ascii "packet body { i32 f32a `{ , }` , }
 // c
+options { }")).
+Eval vm_compute in ("<<<M945>>>" ++ check (runes_of_ascii "MetaData M {
+    u8 x `a
 
-{
+b`,
+    T t `a
+
+b`,
 }")).
-Eval vm_compute in ("<<<M238>>>" ++ check (runes_of_ascii "root packet chars
-{}
+Eval vm_compute in ("<<<M363>>>" ++ check (runes_of_ascii "MetaData
+    // @lengthOf(
+    tag {
+    }")).
+Eval vm_compute in ("<<<M1531>>>" ++ check (runes_of_ascii "// c
+    packet  asx
+	{
+}/// triple
 ")).
-Eval vm_compute in ("<<<M1128>>>" ++ check (runes_of_ascii "// c
-MetaData u { }")).
-Eval vm_compute in ("<<<M1021>>>" ++ check (runes_of_ascii "packet A {
-}
-// c" ++ [8239]%N)).
-Eval vm_compute in ("<<<M994>>>" ++ check (runes_of_ascii "packet A {
-}// c" ++ [5760]%N)).
-Eval vm_compute in ("<<<M762>>>" ++ check (runes_of_ascii "w|lL|]kVFeknSP9")).
-Eval vm_compute in ("<<<M1539>>>" ++ check (runes_of_ascii "// c
+Eval vm_compute in ("<<<M105>>>" ++ check (runes_of_ascii "// " ++ [128512]%N ++ runes_of_ascii " emoji
+MetaData crc
+    {  }")).
+Eval vm_compute in ("<<<M998>>>" ++ check (runes_of_ascii "packet A {
+ u8 x `d" ++ [5760]%N ++ runes_of_ascii "`, // c" ++ [5760]%N ++ runes_of_ascii "
+}")).
+Eval vm_compute in ("<<<M1843>>>" ++ check (runes_of_ascii "packet
+A{ } 
+      // c" ++ [8239]%N ++ runes_of_ascii "
  
 ")).
-Eval vm_compute in ("<<<M56>>>" ++ check (runes_of_ascii " 	 ")).
+Eval vm_compute in ("<<<M414>>>" ++ check (runes_of_ascii "packet uint8x
+{ match")).
+Eval vm_compute in ("<<<M59>>>" ++ check (runes_of_ascii "packet
+int {
+}
+//	t
+")).
+Eval vm_compute in ("<<<M977>>>" ++ check (runes_of_ascii "// c 
+packet A {
+}")).
+Eval vm_compute in ("<<<M1059>>>" ++ check (runes_of_ascii "packet A {
+}// c x")).
+Eval vm_compute in ("<<<M1228>>>" ++ check (runes_of_ascii "packet x // c
+{ }")).
+Eval vm_compute in ("<<<M319>>>" ++ check (runes_of_ascii "packet o
+{
+}
+")).
+Eval vm_compute in ("<<<M990>>>" ++ check (runes_of_ascii "// c" ++ [133]%N)).
+Eval vm_compute in ("<<<M725>>>" ++ check (runes_of_ascii " ")).
